@@ -101,6 +101,9 @@ def run(ctx):
             ctx.count("targets:" + t["cls"])
             if t["cls"] != "boundary":
                 ctx.nontrivial.add((repr(st["sys"]), tuple(t["b"])))
+    # spec growth beyond the property: corner clouds (order, include_ratios) and in_system
+    from .. import helpers_check
+    helpers_check.run(ctx, {"corners"}, "C03")
     # code -> spec: recorded calls on random lattice systems outside the curated families, recomputed by TLC
     from .. import sysdriver
     sysdriver.run_trace(ctx, "inhull", "C03", 16, 40 if thorough else 12)
